@@ -305,8 +305,18 @@ class Classifier:
             desc = "BoundsCheck(len=%s, index=%s)" % (ops[0], idx)
             if re.match(r"^const:\d+$", idx) and re.match(r"^const:\d+$", ops[0]) and int(idx[6:]) < int(ops[0][6:]):
                 auto = ("const/iter", "constant index into a fixed-size array")
+            def _num(x_):
+                m_ = re.match(r"^const:(\d+)$", x_)
+                if m_:
+                    return int(m_.group(1))
+                m_ = re.match(r"^const:(?:\w+::)*(\w+)$", x_)
+                if m_:
+                    for cp_, cv_ in self.ctx.fx.consts.items():
+                        if cp_.split("::")[-1] == m_.group(1):
+                            return cv_
+                return None
             for (rop, x, y) in rels:
-                if rop == "Lt" and x == idx and y == ops[0]:
+                if rop == "Lt" and x == idx and (y == ops[0] or (_num(y) is not None and _num(ops[0]) is not None and _num(y) <= _num(ops[0]))):
                     auto = ("guarded", "index < len of the same slice dominates")
             if auto is None:
                 # index < len(A) dominates and len(A) == len(B) was established by a comparison (cmp(..) is Equal / ==)
